@@ -4,7 +4,9 @@
    edges from definitions/constants that are nodes of the module); export h is the model of
    Hugr.to_model() (link names = component representatives, symbols = defining node). *)
 From Coq Require Import ZArith List Bool.
-From HV Require Import model.Export spec.ExportS spec.ModelAttrsS gen.ModelAttrs proofs.ExportP proofs.ModelAttrsP.
+From HV Require Import model.Export model.ExportNum model.ExportUF spec.ExportS spec.ExportCanon spec.ModelAttrsS
+  gen.ModelAttrs proofs.ExportP proofs.ModelAttrsP proofs.ExportOrderP proofs.ExportNumP proofs.ExportCanonP
+  proofs.ExportUFP proofs.ExportKeysP.
 
 (* the union-find labelling names two ports alike exactly when the links join them *)
 Theorem C12_components : forall ls p q, rep ls p = rep ls q <-> conn ls p q.
@@ -54,6 +56,133 @@ Theorem C12_order_hints_source_keyed_partial :
   forall h, valid_b h = true -> order_hints_source_keyed h (export h) = true.
 Proof. exact export_order_hints_source_keyed. Qed.
 Print Assumptions C12_order_hints_source_keyed_partial.
+
+(* clause 6 in full: in the export of a valid module every state-order link between two exported
+   siblings of a dataflow region has a hint on that region whose keys are on the two nodes, the keys
+   of a region are pairwise distinct, and every hint is such an edge.  Guard: valid_b, valid_order_b
+   (order successors are siblings or the region's Output) and order_ports_b (an offset -1 port is linked
+   to an offset -1 port). *)
+Theorem C12_order_hints_complete_and_keyed :
+  forall h, valid_b h = true -> valid_order_b h = true -> order_ports_b h = true ->
+            order_hints_complete_and_keyed h (export h) = true.
+Proof. exact export_order_hints_complete_and_keyed. Qed.
+Print Assumptions C12_order_hints_complete_and_keyed.
+
+(* order_ports_b cannot be dropped: a link from an order port to a value port makes the exporter
+   emit a hint that is no state-order edge *)
+Theorem C12_order_hints_guard_needed :
+  exists h, valid_b h = true /\ valid_order_b h = true /\ export_err h = false /\
+            order_hints_complete_and_keyed h (export h) = false.
+Proof. exact hints_need_order_ports. Qed.
+Print Assumptions C12_order_hints_guard_needed.
+
+(* totality: on a valid module the export raises exactly when some CFG of the model has no basic block
+   (export_region_cfg: "CFG ... has no entry block"); every other raise site of export.py is excluded
+   by valid_b *)
+Theorem C12_export_total_iff :
+  forall h, valid_b h = true -> (export_err h = false <-> cfg_entries_b h = true).
+Proof. exact export_total_iff. Qed.
+Print Assumptions C12_export_total_iff.
+
+Theorem C12_export_total :
+  forall h, valid_b h = true -> cfg_entries_b h = true -> to_model h = Some (export h).
+Proof. exact export_no_error. Qed.
+Print Assumptions C12_export_total.
+
+(* valid_b (with valid_order_b, order_ports_b, stars_b) alone does not give totality *)
+Theorem C12_valid_alone_not_total :
+  exists h, valid_b h = true /\ valid_order_b h = true /\ order_ports_b h = true /\ stars_b h = true /\
+            export_err h = true.
+Proof. exact valid_not_total. Qed.
+Print Assumptions C12_valid_alone_not_total.
+
+(* the monitor's decision procedure for link names is also complete: it cannot raise a false alarm *)
+Theorem C12_link_names_monitor_complete :
+  forall (L Sy : Type) (leqb : L -> L -> bool) h (m : eregion L Sy),
+    link_names_iff_connected leqb h m -> link_names_iff_connected_b leqb h m = true.
+Proof. exact @link_names_b_complete. Qed.
+Print Assumptions C12_link_names_monitor_complete.
+
+(* first-use numbering of link names (model/ExportNum.v: link_name = dict of roots in insertion order,
+   visits = the calls of a successful export in the order of the code, num = the name of a port).
+   The name returned at every call is num of the port ... *)
+Theorem C12_first_use_names :
+  forall h, fst (link_names (rep (h_links h)) nil (visits h)) = List.map (num h) (visits h).
+Proof. exact names_given_are_num. Qed.
+Print Assumptions C12_first_use_names.
+
+(* ... and on the ports a valid export lists the numbers are a renaming of the link components *)
+Theorem C12_first_use_numbering_is_renaming :
+  forall h, valid_b h = true ->
+  forall p q, List.In p (listed_ports h) -> List.In q (listed_ports h) ->
+              (num h p = num h q <-> conn (h_links h) p q).
+Proof. exact num_listed. Qed.
+Print Assumptions C12_first_use_numbering_is_renaming.
+
+(* so the numbered export satisfies the link-name clause, and with it every clause the monitor evaluates *)
+Theorem C12_numbered_link_names_iff_connected :
+  forall h, valid_b h = true -> link_names_iff_connected Nat.eqb h (export_numbered h).
+Proof. exact numbered_link_names_iff_connected. Qed.
+Print Assumptions C12_numbered_link_names_iff_connected.
+
+Theorem C12_numbered_export_meets_spec :
+  forall h, valid_b h = true -> valid_order_b h = true -> order_ports_b h = true -> stars_b h = true ->
+            spec_b Nat.eqb Z.eqb h (export_numbered h) = true.
+Proof. exact numbered_spec. Qed.
+Print Assumptions C12_numbered_export_meets_spec.
+
+(* the comparison up to renaming of the correspondence check (spec/ExportCanon.v: canon) cannot tell the
+   numbered export from export h: what corr ties to the implementation is also the numbered model *)
+Theorem C12_numbered_export_same_up_to_renaming :
+  forall h, valid_b h = true -> canon Nat.eqb Z.eqb (export_numbered h) = canon port_eqb Z.eqb (export h).
+Proof. exact canon_numbered. Qed.
+Print Assumptions C12_numbered_export_same_up_to_renaming.
+
+(* the union-find as the code has it (model/ExportUF.v: parents/sizes maps, find with path splitting on
+   fuel = number of links + 1, union by size): two ports get the same root exactly when the links join them
+   (in particular the fuel is never exhausted) *)
+Theorem C12_union_find_components :
+  forall ls p q, uf_root ls p = uf_root ls q <-> conn ls p q.
+Proof. exact uf_components. Qed.
+Print Assumptions C12_union_find_components.
+
+(* link_name over that union-find, lookups rewriting parents as they go: the names of the calls of an export
+   are the first-use numbers of the roots *)
+Theorem C12_code_link_names :
+  forall h, code_names h = List.map (num_uf h) (visits h).
+Proof. exact code_names_are_num_uf. Qed.
+Print Assumptions C12_code_link_names.
+
+(* the export named by the code's own procedure meets the whole specification and is, up to the renaming of
+   the correspondence check, the export the other theorems speak about *)
+Theorem C12_code_export_meets_spec :
+  forall h, valid_b h = true -> valid_order_b h = true -> order_ports_b h = true -> stars_b h = true ->
+            spec_b Nat.eqb Z.eqb h (export_code h) = true.
+Proof. exact code_spec. Qed.
+Print Assumptions C12_code_export_meets_spec.
+
+Theorem C12_code_export_same_up_to_renaming :
+  forall h, valid_b h = true -> canon Nat.eqb Z.eqb (export_code h) = canon port_eqb Z.eqb (export h).
+Proof. exact canon_code. Qed.
+Print Assumptions C12_code_export_same_up_to_renaming.
+
+(* order-hint keys are labels: clause 6 holds for the export under every injective labelling of the keyed
+   nodes (rl_region kappa relabels every key and every hint of the tree; the model itself uses the node index) *)
+Theorem C12_order_hints_any_key_labelling :
+  forall (kappa : Z -> Z) h, (forall a b, kappa a = kappa b -> a = b) ->
+    valid_b h = true -> valid_order_b h = true -> order_ports_b h = true ->
+    order_hints_complete_and_keyed h (rl_region kappa (export h)) = true.
+Proof. exact export_order_hints_any_labelling. Qed.
+Print Assumptions C12_order_hints_any_key_labelling.
+
+(* the comparison of the correspondence check (canon_full: link names, symbols and keys up to renaming) does
+   not see an injective relabelling of the keys, whatever the tree *)
+Theorem C12_comparison_blind_to_key_labelling :
+  forall (L Sy : Type) (leqb : L -> L -> bool) (seqb : Sy -> Sy -> bool) (kappa : Z -> Z) (m : eregion L Sy),
+    (forall a b, kappa a = kappa b -> a = b) ->
+    canon_full leqb seqb (rl_region kappa m) = canon_full leqb seqb m.
+Proof. exact @canon_full_relabel. Qed.
+Print Assumptions C12_comparison_blind_to_key_labelling.
 
 Theorem C12_metadata_carried :
   forall h, valid_b h = true -> metadata_carried h (export h) = true.
